@@ -114,6 +114,9 @@ def run(ctx):
             rest = max(groups.items(), key=lambda kv: len(kv[1]))
             f = facts[odd[1][0]].get(k)
             foreign = HF._foreign_atoms(str(odd[0]), str(rest[0])) + HF._foreign_atoms(str(rest[0]), str(odd[0]))
+            fr = facts[rest[1][0]].get(k)
+            if k in HF.EXPRESSION_FACTS:
+                foreign += HF._unresolved_locals(f, str(odd[0]), str(rest[0]), (), ctx) + HF._unresolved_locals(fr, str(rest[0]), str(odd[0]), (), ctx)
             if foreign:
                 # one side mentions an attribute the extractor could not reduce to its definition: texts cannot be compared
                 ctx.undecided("C10.2", f.fn, "%s computes %s as `%s`, %s as `%s`; %s could not be reduced to a common form" % (", ".join(odd[1]), k, odd[0], ", ".join(rest[1]), rest[0], ", ".join(foreign)), label)
@@ -136,6 +139,9 @@ def run(ctx):
             vb = " & ".join(x for x in vb.split(" & ") if "hybrid" not in x)
         if va == vb:
             ctx.holds("C10.2", a.fn, "HasherHybrid and FileHasher: %s = %s" % (k, va), label)
+        elif k in HF.EXPRESSION_FACTS and HF._unresolved_locals(a, va, vb, (), ctx) + HF._unresolved_locals(b, vb, va, (), ctx):
+            ctx.undecided("C10.2", b.fn, "HasherHybrid has %s = `%s`, FileHasher has `%s`; the local name(s) %s could not be reduced to a common form" % (
+                k, va, vb, ", ".join(HF._unresolved_locals(a, va, vb, (), ctx) + HF._unresolved_locals(b, vb, va, (), ctx))), label)
         else:
             ctx.violated("C10.2", b.fn, "HasherHybrid has %s = `%s`, FileHasher has `%s`: hybrid metafiles from the class-based and the command-line creator differ" % (k, va, vb), label)
     ctx.floor("facts compared across sibling hashers", 18, n)
